@@ -79,7 +79,10 @@ def run_oracle(cases, lines, workers=None):
 
 
 # --------------------------------------------------------------------------- shrinking
-def shrink(case, kind, cbin, budget=40):
+TAG_DEPENDENT = ("input constructed with",)      # failures that rely on how the generator built the case: not shrunk
+
+
+def shrink(case, kind, cbin, budget=25):
     """Greedy shrinking of a case on which the oracle reports a failure whose kind starts with the same
     routine family: drop an index (row+column), restrict the mask, simplify entries.  Every round evaluates
     all candidates with ONE run of the C driver."""
@@ -101,6 +104,9 @@ def shrink(case, kind, cbin, budget=40):
     f0 = still_fails([cur])[0]
     if not f0:
         cur = case
+        f0 = still_fails([cur])[0]
+    if f0 and any(t in f0[0][1] for t in TAG_DEPENDENT):
+        return cur, f0
     for _ in range(budget):
         n = cur.n
         cands = []
@@ -126,7 +132,7 @@ def shrink(case, kind, cbin, budget=40):
         res = still_fails(cands)
         nxt = None
         for c, f in zip(cands, res):
-            if f:
+            if f and not any(t in f[0][1] for t in TAG_DEPENDENT):
                 nxt = c
                 break
         if nxt is None:
@@ -245,7 +251,7 @@ def run(ctx):
     seen = set()
     for i, f in sorted(failing, key=lambda t: cases[t[0]].n):
         kind = f[0][0]
-        if kind in seen or len(seen) >= 4:
+        if kind in seen or len(seen) >= 3:
             continue
         seen.add(kind)
         small, sf = shrink(cases[i], kind, cnum)
